@@ -117,11 +117,13 @@ theorem compress_rank [DecidableEq n] (x : n → K) (w : r → K) (P : Matrix n 
   rw [huu, huw, dotProduct_comm w (u ᵥ* Qᵀ), huw, dotProduct_comm (w ᵥ* Q) u]
   ring
 
-/-- The hypotheses of `compress_rank` are satisfiable (a permutation-like Q). -/
+/-- The hypotheses of `compress_rank` are satisfiable (a wide P = [0 3], Q a unit column). -/
 example : ∃ (P : Matrix (Fin 1) (Fin 2) ℚ) (Q : Matrix (Fin 2) (Fin 1) ℚ) (R : Matrix (Fin 1) (Fin 1) ℚ),
     Pᵀ = Q * R ∧ Qᵀ * Q = 1 := by
-  refine ⟨!![0, 3], !![0; 1], !![3], ?_, ?_⟩ <;> ext i j <;> fin_cases i <;> fin_cases j <;>
-    simp [Matrix.mul_apply, Fin.sum_univ_two]
+  refine ⟨Matrix.of fun _ j => if j = 1 then 3 else 0, Matrix.of fun j _ => if j = 1 then 1 else 0,
+          Matrix.of fun _ _ => 3, ?_, ?_⟩
+  · ext j i; simp [Matrix.mul_apply]
+  · ext i j; simp [Matrix.mul_apply, Fin.sum_univ_two, Matrix.one_apply, Subsingleton.elim i j]
 
 /-- Probing an affine function at 0 and at the basis vectors recovers its coefficients
     (what `extract_affine` does, affine.py:117-169). -/
@@ -264,8 +266,9 @@ theorem model_plate_fusion (dim : Nat) (gs : List SG) (x : V) :
 /-- **gauss_subs_affine** for the model: `G(yA + b; w, P) = G(y; w − bP, AP)`. -/
 theorem model_subs_affine (g : SG) (k : Nat) (A : M) (c : V) (y : V) :
     (g.subsAffineRaw k A c).eval y = g.eval (vadd (vecMul k y A) c) := by
+  show SG.eval { dim := k, rank := g.rank, w := vsub g.w (vecMul g.dim c g.P), P := matMul g.dim A g.P } y = _
   rw [eval_eq_quad, eval_eq_quad]
-  simp only [SG.subsAffineRaw, toVec_vsub, toVec_vecMul, toMat_matMul, toVec_vadd]
+  simp only [toVec_vsub, toVec_vecMul, toMat_matMul, toVec_vadd]
   rw [gauss_subs_affine]
 
 /-- the sum over all flat positions splits along any partition into kept and substituted positions -/
@@ -280,13 +283,16 @@ theorem sum_split_perm (n : Nat) (ia ib : List Nat) (h : (ia ++ ib).Perm (List.r
 theorem model_subs_real_partial (g : SG) (ia ib : List Nat) (h : (ia ++ ib).Perm (List.range g.dim)) (x : V) :
     (g.subsSplit ia ib (gatherVec ib x)).eval (gatherVec ia x) = g.eval x := by
   simp only [SG.eval, SG.subsSplit, norm2, dot]
+  congr 1
   apply sumTo_congr; intro j _
   have key : vecMul g.dim x g.P j
       = vecMul ia.length (gatherVec ia x) (gatherRows ia g.P) j
         + vecMul ib.length (gatherVec ib x) (gatherRows ib g.P) j := by
     simp only [FV.C12.vecMul]
     rw [sum_split_perm g.dim ia ib h]
-    congr 1 <;> (apply sumTo_congr; intro i _; simp only [gatherVec, gatherRows]; cases idx : _[i]? <;> simp)
+    congr 1
+    · apply sumTo_congr; intro i _; simp only [gatherVec, gatherRows]; cases ia[i]? <;> simp
+    · apply sumTo_congr; intro i _; simp only [gatherVec, gatherRows]; cases ib[i]? <;> simp
   simp only [vsub, key]; ring
 
 /-- **compress_rank** for the model, with `Q`, `R` supplied: under `Pᵀ = Q R` and `Qᵀ Q = 1` (checked
@@ -303,8 +309,10 @@ theorem model_compress_rank (g : SG) (Q R : M) (x : V)
     rw [← toMat_tr, ← toMat_matMul]; ext i j
     simp only [toMat, of_apply, Matrix.one_apply]
     rw [horth i i.2 j j.2]; simp [idM, Fin.ext_iff]
+  show g.eval x = SG.eval { dim := g.dim, rank := g.dim, w := vecMul g.rank g.w Q, P := tr R } x
+      + (1/2) * (norm2 g.dim (vecMul g.rank g.w Q) - norm2 g.rank g.w)
   rw [eval_eq_quad, eval_eq_quad, compress_rank _ _ _ _ _ hfac' horth']
-  simp only [SG.compressWith, norm2, dot_eq, toVec_vecMul, toMat_tr]
+  simp only [norm2, dot_eq, toVec_vecMul, toMat_tr]
   ring
 
 /-! ## Part C — block layout -/
@@ -345,13 +353,13 @@ theorem blockIdx_partition (inp : Inputs) (sel : String → Bool) (start : Nat) 
       rw [List.range'_append_1]
     simp only [blockIdx, total, hr]
     have ih' := ih (start + sz)
-    cases hs : sel k
-    · simp only [Bool.not_false, if_true, Bool.false_eq_true, if_false, List.nil_append, List.append_assoc]
-      exact List.Perm.append_left _ ih'
-    · simp only [Bool.not_true, Bool.false_eq_true, if_false, if_true, List.nil_append]
+    rcases Bool.eq_false_or_eq_true (sel k) with hs | hs
+    · simp only [hs, Bool.not_true, Bool.false_eq_true, ↓reduceIte, List.nil_append]
       refine List.Perm.trans ?_ (List.Perm.append_left _ ih')
       rw [← List.append_assoc, ← List.append_assoc]
       exact List.Perm.append_right _ List.perm_append_comm
+    · simp only [hs, Bool.not_false, Bool.false_eq_true, ↓reduceIte, List.nil_append, List.append_assoc]
+      exact List.Perm.append_left _ ih'
 
 /-- **gauss_subs_real_partial** at the named level: the Gaussian `_eager_subs_real` returns for a
     partial substitution evaluates, at the kept values, to the original at the combined point. -/
